@@ -45,6 +45,19 @@ Theorem C07_dict_core_tiles : forall (ed : string -> Z) (n : Z), 1 <= n -> foral
 Proof. exact dict_core_tiles. Qed.
 Print Assumptions C07_dict_core_tiles.
 
+(* conversely, (instance rank + 1) is the ONLY entry that works: for any rank function that gives observers rank 2 and
+   any keyword whose entry differs from (rank of one instance's value + 1), there is a call -- this keyword given once,
+   n >= 2 observers -- that getBH_dict_level2 does not tile to (n, instance shape) (it raises, or passes another shape) *)
+Theorem C07_rank_entry_necessary : forall (ed : string -> Z) (key : string) (s : shape),
+  ed "observers"%string = 2 ->
+  Forall (fun d => 2 <= d) s ->
+  ed key <> ndim s + 1 ->
+  exists n, 2 <= n /\
+    dict_core ed [(key, item_in n (mkItem key s MSingle)); ("observers"%string, PArr [n; 3])]
+    <> DOk [(key, VArr (n :: s)); ("observers"%string, VArr [n; 3])].
+Proof. exact rank_entry_necessary. Qed.
+Print Assumptions C07_rank_entry_necessary.
+
 (* RECORD (defect fixed by /repo commit 3bc026d; a statement about the model with a literal table, not about the
    current tree): with the entry "mesh": 3 one (4,3,3) mesh is counted as 4 instances and a per-instance (2,4,3,3) array
    is not counted at all; with "mesh": 4 both calls tile to n = 2 *)
